@@ -47,4 +47,8 @@ func c08(c *Ctx) {
 	for _, d := range ck.IP.Diag {
 		r.Unknown("A0", "diag/"+d, "", d)
 	}
+	// whatever the reader kind: nothing returned aliases the reused read buffer (S3) and the packet size is detected once
+	// per pass (P8)
+	joinS3(c)
+	joinP8(c)
 }
